@@ -372,7 +372,7 @@ def part_valid(ctx, tmp):
             items.append({"id": f"abi{i}", "src": K["src"], "how": "c19_gen", "base": f"abi{i}"})
     for i, (nm, src) in enumerate(nested_programs(ctx.tier == "quick")):
         items.append({"id": f"nested{i}", "src": src, "how": "nested-containers", "base": nm})
-    for i in range(18 if ctx.tier == "quick" else 600):
+    for i in range(14 if ctx.tier == "quick" else 600):
         items.append({"id": f"valid{i}", "src": c20_valid_gen.gen_program(rnd), "how": "c20_valid_gen", "base": f"valid{i}"})
     nsh = 3
     shards = [items[k::nsh] for k in range(nsh)]
@@ -453,9 +453,9 @@ def part_builtin_matrix(ctx, tmp):
         if b is not None:
             built.append((tpl, h, sh, b))
     n_all = len(built)
-    target = 240 if ctx.tier == "quick" else (n_all if os.environ.get("VERIF_C20_FULL_MATRIX") == "1" else 6000)
+    target = 215 if ctx.tier == "quick" else (n_all if os.environ.get("VERIF_C20_FULL_MATRIX") == "1" else 4000)
     if target < n_all:
-        # seeded sample, stratified so that every builtin and every shape occurs (thorough: 6000 of the ~20k programs to stay
+        # seeded sample, stratified so that every builtin and every shape occurs (thorough: 4000 of the ~20k programs to stay
         # inside the tier budget; VERIF_C20_FULL_MATRIX=1 runs the whole matrix, ~25 min on 3 cores)
         by_b, by_s = collections.defaultdict(list), collections.defaultdict(list)
         for c in built:
@@ -536,7 +536,7 @@ def part_cf_exec(ctx, tmp):
     from vlib.c18_corpus import gen_cf_program
     from vlib.evm import Chain
     rnd = ctx.rng("cfexec")
-    n_word, n_mem = (3, 7) if ctx.tier == "quick" else (30, 120)
+    n_word, n_mem = (3, 7) if ctx.tier == "quick" else (20, 80)
     items = []
     for i in range(n_word):
         items.append({"id": f"cfw{i}", "src": gen_cf_program(rnd), "how": "cf-exec:words", "base": f"cfw{i}"})
